@@ -176,7 +176,22 @@ ListIsLocal == (Fresh /\ hs.form = "each") =>
         LET h2 == Each([hs.v EXCEPT ![i] = x]) IN
         \A m \in 1..N : ScanOne(Files(lay), h2, ks, m).hdu = IF m = i THEN x ELSE hs.v[m]
 
+KeyListIsLocal == (Fresh /\ ks.form = "each") =>
+    \A i \in 1..N : \A x \in KeysAt(Files(lay), hs, i) :
+        LET k2 == Each([ks.v EXCEPT ![i] = x]) IN
+        \A m \in 1..N : ScanOne(Files(lay), hs, k2, m).key = IF m = i THEN x ELSE ks.v[m]
+
 \* ------------------------------------------------------------------ theorems that do not depend on a behaviour
+\* the generated case space is exactly the set of in-scope selections (checked for collections of up to n files)
+AllSpecs(forms, n, vals) == Forms(forms, vals, [1..n -> vals])
+CaseSpaceComplete(n) ==
+    \A l \in UNION {[1..m -> DOMAIN LayoutSeq] : m \in 1..n} :
+        LET files == Files(l)
+            m == Len(l) IN
+        (\A i \in 1..m : HasImage(files[i])) =>
+            {<<h, k>> : h \in AllSpecs(HduForms, m, 0..(MaxHdus - 1)), k \in AllSpecs(KeyForms, m, AllKeys)} \cap
+                {c \in AllSpecs(HduForms, m, 0..(MaxHdus - 1)) \X AllSpecs(KeyForms, m, AllKeys) : InScope(files, c[1], c[2])}
+            = UNION {{<<h, k>> : k \in KeySpecs(files, h)} : h \in HduSpecs(files)}
 \* the loop finds the first image HDU whenever there is one; otherwise it ends on the last HDU
 GuessIsFirstImage(n) == \A f \in AllLayouts(n) : /\ HasImage(f) => GuessHdu(f) = FirstImage(f)
                                                  /\ ~HasImage(f) => GuessHdu(f) = Len(f) - 1
